@@ -125,6 +125,9 @@ fn main() {
         pairs_run += 1;
         bump(&format!("kind:{}", rt.kind()), &mut classes);
         bump(&format!("storage:{}", p["settings"]["storaget"].as_str().unwrap_or("u32")), &mut classes);
+        if p["settings"]["legacy_api"] == json!(true) {
+            bump("api:process_file", &mut classes);
+        }
         if rt.kind() == "Grmtools" || rt.kind() == "UserAction" {
             bump(&format!("parse-param:{}", rt.param()), &mut classes);
             if rt.has_unit() {
